@@ -124,7 +124,11 @@ Definition gunzip_out (d : B) : outcome (resval B) :=
 Definition read_handle (p : path) (zipped : bool) : prog (outcome (resval B)) :=
   Do (CRead p) (fun r =>
   match r with
-  | RData d => Do (CClose p) (fun _ => Ret (if zipped then gunzip_out d else Ok (VData d)))
+  | RData d => Do (CClose p) (fun r =>
+                 match r with
+                 | RErr _ => Ret AccessErr        (* OSError from __exit__ *)
+                 | _ => Ret (if zipped then gunzip_out d else Ok (VData d))
+                 end)
   | _ => Do (CClose p) (fun _ => Ret AccessErr)
   end).
 
